@@ -316,22 +316,70 @@ Qed.
     answer is an instance of another (a most general answer arriving first ends the search
     with [Unique], arriving second it is anti-unified with the earlier one into
     [Ambiguous]).  The arrival order is the clause order.  Decidable, conservative
-    description on the *input*: the query has an unknown, and two different clauses whose
-    heads are instance-related are relevant to it — either directly (a goal atom could match
-    both heads) or through a sub-goal (their predicate is reachable in one or more steps
-    from a goal atom's predicate). *)
+    description on the *input*: the query has an unknown, and two different clauses can
+    produce such answers — see [f16_pair]. *)
 
-(** chalk's [could_match]: variables on either side match anything. *)
-Fixpoint cm (a h : ty) : bool :=
-  match a, h with
-  | TVar _, _ | _, TVar _ => true
-  | TCon c, TCon d => N.eqb c d
-  | TPh k, TPh l => N.eqb k l
-  | TAp f x, TAp g y => cm f g && cm x y
-  | _, _ => false
+(** First-order unification with fuel (only used to DECIDE the class on inputs; no theorem
+    depends on it). *)
+Fixpoint shiftv (n : nat) (t : ty) : ty :=
+  match t with
+  | TVar i => TVar (i + n)
+  | TAp f x => TAp (shiftv n f) (shiftv n x)
+  | _ => t
   end.
 
-Definition inst_related (h1 h2 : ty) : bool := instance_of [h1] [h2] || instance_of [h2] [h1].
+Fixpoint maxv (t : ty) : nat :=
+  match t with
+  | TVar i => S i
+  | TAp f x => Nat.max (maxv f) (maxv x)
+  | _ => O
+  end.
+
+(** apply a triangular substitution exhaustively *)
+Fixpoint walk (fuel : nat) (s : list (nat * ty)) (t : ty) : ty :=
+  match fuel with
+  | O => t
+  | S f =>
+      match t with
+      | TVar i => match lookup i s with Some u => walk f s u | None => t end
+      | TAp a b => TAp (walk f s a) (walk f s b)
+      | _ => t
+      end
+  end.
+
+Fixpoint unify (fuel : nat) (eqs : list (ty * ty)) (s : list (nat * ty)) : option (list (nat * ty)) :=
+  match fuel with
+  | O => None
+  | S f =>
+      match eqs with
+      | [] => Some s
+      | (a, b) :: r =>
+          let a' := match a with TVar i => walk fuel s a | _ => a end in
+          let b' := match b with TVar i => walk fuel s b | _ => b end in
+          match a', b' with
+          | TVar i, TVar j => if Nat.eqb i j then unify f r s else unify f r ((i, b') :: s)
+          | TVar i, t | t, TVar i => if occurs i (walk fuel s t) then None else unify f r ((i, t) :: s)
+          | TCon c, TCon d => if N.eqb c d then unify f r s else None
+          | TPh k, TPh l => if N.eqb k l then unify f r s else None
+          | TAp f1 x1, TAp f2 x2 => unify f ((f1, f2) :: (x1, x2) :: r) s
+          | _, _ => None
+          end
+      end
+  end.
+
+Definition UFUEL : nat := 400.
+
+(** the goal atom [a] resolved against the clause head [h] (renamed apart): [a] under the mgu *)
+Definition resolved (a h : ty) : option ty :=
+  match unify UFUEL [(a, shiftv (maxv a) h)] [] with
+  | Some s => Some (walk UFUEL s a)
+  | None => None
+  end.
+
+Definition heads_unify (h1 h2 : ty) : bool :=
+  match unify UFUEL [(h1, shiftv (maxv h1) h2)] [] with Some _ => true | None => false end.
+
+Definition inst_related (a1 a2 : ty) : bool := instance_of [a1] [a2] || instance_of [a2] [a1].
 
 Fixpoint pairs_from {A} (l : list A) : list (A * A) :=
   match l with
@@ -339,13 +387,18 @@ Fixpoint pairs_from {A} (l : list A) : list (A * A) :=
   | x :: r => map (fun y => (x, y)) r ++ pairs_from r
   end.
 
-Definition f16_pair (cls : list clause) (atoms : list ty) (deep : list N) (c1 c2 : clause) : bool :=
-  inst_related (chead c1) (chead c2) &&
+(** Two different clauses are relevant to the query and can produce answers one of which
+    subsumes the other: directly — a goal atom unifies with both heads and the two resolved
+    atoms are instance-related — or in a sub-goal: their predicate is reachable from a goal
+    atom's predicate in one or more steps and their heads unify (they overlap). *)
+Definition f16_pair (atoms : list ty) (deep : list N) (c1 c2 : clause) : bool :=
+  existsb (fun a => match resolved a (chead c1), resolved a (chead c2) with
+                    | Some a1, Some a2 => inst_related a1 a2
+                    | _, _ => false
+                    end) atoms ||
   match hsym (chead c1) with
+  | Some s => memN s deep && heads_unify (chead c1) (chead c2)
   | None => false
-  | Some s =>
-      memN s deep ||
-      existsb (fun a => cm a (chead c1) && cm a (chead c2)) atoms
   end.
 
 Definition f16_class (P : program) (q : query) : bool :=
@@ -353,7 +406,7 @@ Definition f16_class (P : program) (q : query) : bool :=
   let atoms := goal_atoms (q_body q) in
   let deep := flat_map (reaches_from cls) (syms_of atoms) in
   negb (Nat.eqb (length (q_ubs q)) 0) &&
-  existsb (fun p => f16_pair cls atoms deep (fst p) (snd p)) (pairs_from cls).
+  existsb (fun p => f16_pair atoms deep (fst p) (snd p)) (pairs_from cls).
 
 (** The class is a property of the clause *set* up to order: swapping two clauses does not
     change membership (so the check may evaluate it on either of the two programs). *)
@@ -410,6 +463,19 @@ Module PermExamples.
         [|rewrite andb_false_r in Hr; discriminate].
       exists [t]. reflexivity.
   Qed.
+
+  (** the class sees answers that subsume each other although the HEADS are not
+      instance-related (found by the C13 generator):
+      impl<T> Foo<T> for Vec<T>; impl<T> Foo<S2> for T;   exists<X> { Vec<X>: Foo<X> } *)
+  Definition S2c := tapp 5 [].
+  Definition Vecc t := tapp 6 [t].
+  Definition Foo2 a b := tapp 1002 [a; b].
+  Definition P16b := mkProg [mkClause (Foo2 (Vecc (TVar 0)) (TVar 0)) []; mkClause (Foo2 (TVar 0) S2c) []] [].
+  Example f16_class_unify :
+    f16_class P16b (mkQuery 0 [0%N] (GAtom (Foo2 (Vecc (TVar 0)) (TVar 0)))) = true /\
+    f16_class P16b (mkQuery 0 [0%N] (GAtom (Foo2 (Vecc A) (TVar 0)))) = false /\
+    f16_class P16b (mkQuery 0 [] (GAtom (Foo2 (Vecc S2c) S2c))) = false.
+  Proof. repeat split; vm_compute; reflexivity. Qed.
 
   (** Non-vacuity of the permutation theorems: a program with a where-clause, reordered both
       ways, on which the evaluator answers. *)
